@@ -390,6 +390,16 @@ where
         )
     }
 
+    /// Verification hook: records that the previous connection was lost `secs_ago`
+    /// seconds ago, which production code never does, so that the session resume
+    /// path of [run](Context::run) becomes reachable.
+    ///
+    #[cfg(feature = "verif-hooks")]
+    pub fn verif_mark_disconnected(&mut self, secs_ago: u64) {
+        self.connection.disconnection_timestamp =
+            Some(SystemTime::now() - std::time::Duration::from_secs(secs_ago));
+    }
+
     /// Sets up communication primitives for the context. This is the first method
     /// to call when starting the connection with the broker.
     ///
